@@ -341,6 +341,17 @@ pub fn dispatch(args: &Args) -> i32 {
                 "outside": ["the operator functions themselves (engine K cells)"],
             }))
         }
+        "C19" => {
+            // structure of expressions over the real default table (infix and call form, constants, unary names):
+            // which operator of the table is applied to which operands, in which order
+            let pls = ["flat", "flat_wo", "deep"];
+            let parts = vec![crate::extra::part_default_table(args, &pls)];
+            finish(args, "C19", parts, vec![], json!({
+                "functions": ["FloatOpsFactory::make (repr, prio, is_commutative, capabilities of every entry)", "parser::tokenize_and_analyze", "flat::detail::make_expression", "deep::detail::make_expression"],
+                "assumptions": ["the function bodies are decided by engines M and K; this part decides that a parsed expression (infix and call form) applies the table entry of that name to the operands in the documented order"],
+                "outside": ["trees beyond the bound"],
+            }))
+        }
         "C13" => crate::extra::c13(args),
         "C14" => {
             let pls = ["flat", "flat_wo", "deep", "flat>deep"];
